@@ -84,4 +84,75 @@ Proof.
     inversion Hv; subst value. subst g. now apply fst_decodes_decodes.
 Qed.
 
+(* what a recorded value means: the symbols of the declared width it stands for *)
+Definition means (bits : nat) (v : rec_val) (syms : list N) : Prop :=
+  match v with
+  | RText t => exists chars, normalize bits t = Ok chars /\ length chars = bits /\ chars_to_nums chars = Some syms
+  | RRaw data st => data = write_n_state_loop st syms 0 None /\ length syms = bits /\ small_syms st syms /\
+                    Forall (fun x => x <= 8) syms
+  end.
+
+Lemma decodes_means bits a r syms : decodes bits a r -> means bits (snd r) syms -> snd a = syms.
+Proof.
+  destruct a as [[g l] s]. cbn [decodes snd]. intros (_ & Hv & _ & _) Hm. unfold means in Hm.
+  destruct (snd r) as [t|data st].
+  - destruct Hv as (c1 & Hn1 & _ & Hc1). destruct Hm as (c2 & Hn2 & _ & Hc2).
+    rewrite Hn1 in Hn2. inversion Hn2; subst c2. rewrite Hc1 in Hc2. now inversion Hc2.
+  - destruct Hv as (Hd1 & Hl1 & Hq1 & _). destruct Hm as (Hd2 & Hl2 & Hq2 & _).
+    pose proof (pack_unpack st s Hq1) as P1. pose proof (pack_unpack st syms Hq2) as P2.
+    rewrite <- Hd1, Hl1 in P1. rewrite <- Hd2, Hl2 in P2. rewrite P1 in P2. now inversion P2.
+Qed.
+
+(* two recorded values at the same time index that mean the same symbols have the same abstract entry *)
+Lemma decodes_same bits a b ra rb syms : decodes bits a ra -> decodes bits b rb -> fst ra = fst rb ->
+  means bits (snd ra) syms -> means bits (snd rb) syms -> a = b.
+Proof.
+  intros Ha Hb Ht Ma Mb. pose proof (decodes_means bits a ra syms Ha Ma) as Sa.
+  pose proof (decodes_means bits b rb syms Hb Mb) as Sb.
+  destruct a as [[ga la] sa], b as [[gb lb] sb]. cbn [snd] in Sa, Sb. subst sa sb.
+  destruct Ha as (Hg1 & _ & Hs1 & Hm1). destruct Hb as (Hg2 & _ & Hs2 & Hm2). cbn [fst] in *.
+  assert (states_num la = states_num lb) by (specialize (Hm1 lb Hs2); specialize (Hm2 la Hs1); lia).
+  assert (la = lb) by (destruct la, lb; cbn in *; congruence). congruence.
+Qed.
+
+(* Property C12, value paths of VCD and GHW: two histories - one of VCD text changes, one of pre-packed raw changes as
+   the GHW reader delivers them (or any mix) - whose recorded values mean the same symbols at the same time indices
+   are reported identically, whatever the block segmentation and compressor of either store *)
+Theorem same_meaning_same_report id bits tpes1 tpes2 ops1 ops2 e1 e2 b1 t1 b2 t2 :
+  (1 <= bits)%nat ->
+  nth_error tpes1 id = Some (EncBits bits) -> nth_error tpes2 id = Some (EncBits bits) ->
+  Forall (op_ok id bits) ops1 -> Forall (op_ok id bits) ops2 ->
+  N.of_nat (count_vcd id ops1) * (10 + N.of_nat bits) < 4294967264 ->
+  N.of_nat (count_vcd id ops2) * (10 + N.of_nat bits) < 4294967264 ->
+  run_ops parse_f64 lz_compress cap (enc_new tpes1) ops1 = Ok e1 ->
+  run_ops parse_f64 lz_compress cap (enc_new tpes2) ops2 = Ok e2 ->
+  enc_finish lz_compress e1 = Ok (b1, t1) -> N.of_nat (length t1) < 4294967296 ->
+  enc_finish lz_compress e2 = Ok (b2, t2) -> N.of_nat (length t2) < 4294967296 ->
+  Forall2 (fun ra rb => fst ra = fst rb /\ exists syms, means bits (snd ra) syms /\ means bits (snd rb) syms)
+          (recorded id ops1 [] false) (recorded id ops2 [] false) ->
+  exists s1 s2, load_signal lz_decompress b1 id (EncBits bits) = Ok s1 /\
+                load_signal lz_decompress b2 id (EncBits bits) = Ok s2 /\
+                observe_signal s1 = observe_signal s2.
+Proof.
+  intros Hb Htp1 Htp2 Ho1 Ho2 Hb1 Hb2 Hr1 Hr2 Hf1 Hl1 Hf2 Hl2 Hsame.
+  destruct (storage_transparent parse_f64 lz_compress lz_decompress lz_ok cap cap_pos cap_u16 id bits Hb
+              tpes1 ops1 e1 b1 t1 Htp1 Ho1 Hb1 Hr1 Hf1 Hl1) as (R1 & s1 & Hd1 & Hload1 & Hobs1).
+  destruct (storage_transparent parse_f64 lz_compress lz_decompress lz_ok cap cap_pos cap_u16 id bits Hb
+              tpes2 ops2 e2 b2 t2 Htp2 Ho2 Hb2 Hr2 Hf2 Hl2) as (R2 & s2 & Hd2 & Hload2 & Hobs2).
+  exists s1, s2. split; [exact Hload1|]. split; [exact Hload2|]. rewrite Hobs1, Hobs2. f_equal. f_equal.
+  clear Hobs1 Hobs2. revert R1 R2 Hd1 Hd2. induction Hsame as [|ra rb l1 l2 [Ht (syms & Ma & Mb)] _ IH]; intros R1 R2 Hd1 Hd2.
+  - inversion Hd1; inversion Hd2; reflexivity.
+  - inversion Hd1 as [|a ? R1' ? Ha Hd1']; subst. inversion Hd2 as [|b ? R2' ? Hb' Hd2']; subst.
+    f_equal; [exact (decodes_same bits a b ra rb syms Ha Hb' Ht Ma Mb)|now apply IH].
+Qed.
+
 End Cross.
+
+(* the premises are satisfiable: "b1x0" as text and the same three symbols pre-packed as 4-state data *)
+Example same_meaning_example :
+  means 3 (RText [98; 49; 120; 48]) [1; 2; 0] /\ means 3 (RRaw (write_n_state_loop Four [1; 2; 0] 0 None) Four) [1; 2; 0].
+Proof.
+  split.
+  - exists [49; 120; 48]. repeat split; reflexivity.
+  - repeat split; try reflexivity; repeat constructor; cbn; lia.
+Qed.
